@@ -112,6 +112,38 @@ def main() -> int:
             report('C02', {'kind': 'project', 'mods': [['dep', None, False, 'class Base:\n    def m(self): pass\nX = 1\n'], ['mod', None, False, src]], 'order': None}, c02.invariants(s, True))
         from .gen import pysource
         seeds = [s.encode() for s in ['class C(Base):\n    """L{C}"""\n    def f(self, a: "int" = 1): pass\n', 'from dep import *\n__all__ = ["Base"]\n', '@property\ndef f(): pass\nx: int = 1\n"""d"""\n']]
+    elif target == 'c15':
+        import ast as _ast
+        from .props import c15
+
+        def one(data: bytes) -> None:
+            stats['execs'] += 1
+            if len(data) < 2:
+                return
+            mode_b = data[0]
+            try:
+                src = data[1:].decode('utf-8')
+            except UnicodeDecodeError:
+                return
+            if '\x00' in src or '\n' in src or '\r' in src:
+                return
+            try:
+                tree = _ast.parse(src, mode='eval')
+            except (SyntaxError, ValueError, RecursionError, MemoryError):
+                return
+            nodes = list(_ast.walk(tree))
+            if len(nodes) > 60:
+                return
+            if any(isinstance(x, _ast.Call) and getattr(x.func, 'attr', getattr(x.func, 'id', '')) == 'compile' for x in nodes):
+                return  # re.compile(...) is displayed as a (normalised) regular expression: the regex sub-check's business
+            mode = 'inline' if mode_b % 3 == 0 else c15.SETTINGS[mode_b % len(c15.SETTINGS)]
+            try:
+                d = c15.check_text(src, mode)
+            except RecursionError:
+                return
+            report('C15', {'text': src, 'mode': mode if mode == 'inline' else list(mode)}, d)
+        seeds = [b'\x00' + s.encode() for s in ['a+b*(c-d)', 'f(a, *b, k=1, **c)[1:2, ::3]', "{'k': [1, (2,), {3}], **d}", 'lambda x, /, y=1, *a, z, **k: (yield)', "x if not y else -z ** 2 @ w",
+                                               "[i async for i in a if i]", "f'{a!r:>{w}}' b'c'", 'a < b <= c is not d in e', '(a := 1, *b)', "a.b(c)(d).e[f]"]]
     else:
         print('unknown target', target)
         return 2
